@@ -122,6 +122,7 @@ type Sched struct {
 	opts     []int
 	lockEdge map[[2]any]struct{}
 	skipped  int
+	quiet    int
 	fp       uint64
 	objs     map[any]*objRec
 	optNames []uint64
@@ -453,7 +454,7 @@ func (s *Sched) reschedule() {
 			panic(abortSig{})
 		}
 		pick := 0
-		if len(opts) > 1 {
+		if len(opts) > 1 && s.quiet == 0 {
 			names := s.optNames[:0]
 			for _, o := range opts {
 				if o == timerOpt {
@@ -572,6 +573,42 @@ func Released(obj any) {
 	}
 }
 
+// Quiet runs f (a driver's set-up phase) under the scheduler without offering
+// choices: the default schedule is taken at every point, so the explored
+// interleavings start after the set-up.
+func Quiet(f func()) {
+	s := active
+	if s == nil {
+		f()
+		return
+	}
+	s.quiet++
+	defer func() { s.quiet-- }()
+	f()
+}
+
+// WaitIdle parks the running thread until every other thread has finished or
+// is blocked (used by harnesses to let asynchronous callbacks complete before
+// observing a quiescent state).
+func WaitIdle() {
+	s := active
+	if s == nil {
+		return
+	}
+	me := s.cur
+	Block("wait-idle", func() bool {
+		for _, t := range s.threads {
+			if t == me || t.done {
+				continue
+			}
+			if !t.blocked || (t.why != "wait-idle" && t.ready()) {
+				return false
+			}
+		}
+		return true
+	})
+}
+
 // Go starts f as a new vrt thread (or a plain goroutine without a scheduler).
 func Go(f func()) {
 	GoNamed("go", f)
@@ -600,6 +637,10 @@ func Choose(label string, n int) int {
 		panic(abortSig{})
 	}
 	s.note("choose", label)
+	if s.quiet > 0 {
+		s.event(s.cur.cname, &s.cur.nev, "choose", "env:"+label, 1)
+		return 0
+	}
 	c := s.cfg.Chooser(ChoicePoint{Kind: 'E', N: n, Label: label, FP: mix(mix(s.fp, s.cur.cname), strHash(label))})
 	s.event(s.cur.cname, &s.cur.nev, "choose", "env:"+label, uint64(c)+1)
 	if c < 0 || c >= n {
